@@ -199,6 +199,20 @@ def run_rates(w):
                 else:
                     out.append(('C19:rate-eq', f"{a!r} != {b!r} although "
                                 "they quote the same rate"))
+    # a pool with rates in both directions, exact reciprocals among them:
+    # whatever pairs the implementation calls equal must hash equal
+    j = w.units['JPY']
+    pool = []
+    for v in ('i:2', 'D:0.5', 'D:1.25', 'D:0.8', 'i:1', 'i:160',
+              'D:0.00625', 'D:0.9683'):
+        pool += [ExchangeRate(e, 1, u, O.dec(v)),
+                 ExchangeRate(u, 1, e, O.dec(v))]
+    pool += [r.inverted() for r in pool[:8]]
+    pool += [ExchangeRate(e, 1, j, 2), ExchangeRate(j, 1, e, O.dec('D:0.5'))]
+    for a in pool:
+        for b in pool:
+            if a == b:
+                out += coherent(a, b, f"{a!r} == {b!r}", 'C19:rate-hash')
     return out
 
 
@@ -232,6 +246,23 @@ def run_terms(w):
                     out += coherent(a, b, f"{a!r} == {b!r}", 'C19:term-hash')
                 else:
                     out.append(('C19:term-eq', f"{a!r} != {b!r}"))
+    # terms taken as given (reduce_items=False) next to their reduced
+    # spellings: only pairs the implementation calls equal are judged
+    pool = [Term([(10, 2)], reduce_items=False), Term([(100, 1)]),
+            Term([(2, -1)], reduce_items=False), Term([(F(1, 2), 1)]),
+            Term([(1, 1)], reduce_items=False), Term(),
+            Term([(O.dec('D:0.5'), 1)], reduce_items=False),
+            Term([(m, 1), (m, 1)], reduce_items=False), Term([(m, 2)]),
+            Term([(km, 1), (m, -1)], reduce_items=False), Term([(1000, 1)]),
+            Term([(1000, 1), (m, 0)], reduce_items=False)]
+    for a in pool:
+        for b in pool:
+            try:
+                eq = a == b
+            except Exception:
+                continue
+            if eq:
+                out += coherent(a, b, f"{a!r} == {b!r}", 'C19:term-hash')
     return out
 
 
